@@ -1,6 +1,7 @@
 package chainsim
 
 import (
+	"math/big"
 	"bytes"
 	"fmt"
 	"sort"
@@ -290,11 +291,17 @@ func (m *C10) OnBlock(e *Env, blk *world.BlockRecord) {
 			e.Fail("C10", "attempt_not_persisted", "", "signing %d attempt %d announced by event but not stored", a.Sig.ID, a.Att.N)
 			return
 		}
-		a.Att.Expired = int64(sa.ExpiredHeight)
-		per := a.Att.Expired - a.Att.Created
-		if per != int64(j.ParamsBefore.SigningPeriod) && per != int64(j.ParamsAfter.SigningPeriod) {
-			e.Fail("C10", "attempt_expiry_height", "", "signing %d attempt %d created at %d expires at %d; signing_period is %d", a.Sig.ID, a.Att.N, a.Att.Created, a.Att.Expired, j.ParamsBefore.SigningPeriod)
+		// exact integers: creation height + signing period, whatever the period's magnitude (a sum that wraps is a wrong expiry)
+		stored := new(big.Int).SetUint64(sa.ExpiredHeight)
+		wantA := new(big.Int).Add(big.NewInt(a.Att.Created), new(big.Int).SetUint64(j.ParamsBefore.SigningPeriod))
+		wantB := new(big.Int).Add(big.NewInt(a.Att.Created), new(big.Int).SetUint64(j.ParamsAfter.SigningPeriod))
+		if stored.Cmp(wantA) != 0 && stored.Cmp(wantB) != 0 {
+			e.Fail("C10", "attempt_expiry_height", "", "signing %d attempt %d created at %d expires at %d; signing_period is %d", a.Sig.ID, a.Att.N, a.Att.Created, sa.ExpiredHeight, j.ParamsBefore.SigningPeriod)
 			return
+		}
+		a.Att.Expired = 1<<63 - 1 // beyond any height a run reaches
+		if stored.IsInt64() {
+			a.Att.Expired = stored.Int64()
 		}
 	}
 	// completion in this block => SUCCESS at this block end
@@ -437,7 +444,8 @@ func (m *C10) oldestQueued(sh *TSSShadow, created int64) int64 {
 
 func (m *C10) Pending(e *Env) bool {
 	for _, sg := range getShadow(e).Signings {
-		if sg.Status == sigWaiting {
+		// a signing whose current attempt ends far beyond the run (a huge signing period set by governance) is not waited for
+		if sg.Status == sigWaiting && sg.Cur().Expired < e.W.Height+300 {
 			return true
 		}
 	}
@@ -451,6 +459,20 @@ func (m *C10) Finish(e *Env) {
 	for _, sid := range sortedSigIDs(getShadow(e).Signings) {
 		sg := getShadow(e).Signings[sid]
 		if sg.Status == sigWaiting {
+			// bounded liveness: the current attempt ends at its expiry height and every further attempt the limit allows lasts one
+			// signing period; only a signing still open beyond that bound is overdue (governance may have made the period or the
+			// limit larger than any run, then nothing is due yet)
+			tp := e.App().TSSKeeper.GetParams(e.Ctx())
+			cur := sg.Cur()
+			bound := big.NewInt(cur.Expired)
+			if tp.MaxSigningAttempt > cur.N {
+				more := new(big.Int).Mul(new(big.Int).SetUint64(tp.MaxSigningAttempt-cur.N), new(big.Int).SetUint64(tp.SigningPeriod))
+				bound.Add(bound, more)
+			}
+			if big.NewInt(e.W.Height).Cmp(bound) <= 0 {
+				e.St.Probe("c10_signing_open_at_end_but_not_yet_due")
+				continue
+			}
 			e.Fail("C10", "liveness_terminal", "", "signing %d (created %d, attempt %d) still WAITING at height %d after faults stopped", sid, sg.Created, sg.Cur().N, e.W.Height)
 			return
 		}
